@@ -45,6 +45,11 @@ func main() {
 
 	ir.KnownFuncs = rules.KnownFuncs()
 	ir.KnownSigs = rules.KnownSigs()
+	ir.Known = rules.KnownSymbols()
+	if *dump == "knownsymbols" {
+		ir.Known = nil
+		ir.KnownFuncs = nil
+	}
 	if os.Getenv("CDIVERIF_NONORM") != "" {
 		ir.NormalizeCFG = false
 	}
@@ -141,6 +146,13 @@ func fatal(prop, format string, args ...interface{}) {
 
 func doDump(u *ir.Universe, what string) {
 	kind, name, _ := strings.Cut(what, ":")
+	if kind == "knownsymbols" {
+		ks := ir.SymbolsOf(u.Pkgs)
+		ks.Closures = u.ClosureParams()
+		data, _ := json.MarshalIndent(ks, "", " ")
+		fmt.Println(string(data))
+		return
+	}
 	if kind == "knownfuncs" {
 		for _, k := range u.FuncKeys() {
 			fmt.Println(k)
